@@ -35,6 +35,7 @@ type Interp struct {
 	steps int
 	depth int
 	curFr *frame
+	atomicPtrs map[*value]value // contents of sync/atomic.Pointer[T] cells, keyed by receiver
 
 	inputCount map[string]int
 	inputs     []*inputRec
